@@ -27,6 +27,7 @@ func init() {
 		Level: "exploration",
 		Rule: "(1) configurations x programs: each generated program (core, calls, closures, coroutines families) is run under 12 (quick) / 40 (thorough) Options drawn from CallStackSize {32,33,63,64,65,255,256,1024} x MinimizeStackMemory x " +
 			"RegistrySize {128,129,256,5120} x RegistryMaxSize {0,+1,+33,1e5} x RegistryGrowStep {1,7,32,1000} x {no context, background context, never-firing counting context}; all traces must be identical and equal the reference interpreter's (a configuration in which the program meets a limit is excluded and counted); " +
+			"(2b) the overflow is caught by pcall, by xpcall with a handler, or by the resume of a coroutine whose own stack/registry overflows (status dead, running() unchanged); arguments of a wrap call and of a resume of a suspended coroutine; for growable registries also windows across the first growth (every size must work); " +
 			"(2) limits: recursion depth d and argument count n straddling each limit (d = L-12..L+3 for call stacks, fixed and auto-growing, also inside coroutines; n around RegistrySize / RegistryMaxSize via unpack, varargs, {...}): the overflow must be a string error caught by pcall, monotone in d/n, repeatable 100x, with caller locals intact, state balanced and a probe battery unchanged afterwards; " +
 			"(3) components: random operation histories on the two call-frame stack implementations (push/pop/SetSp across 0-5 segment boundaries/At/Last/IsFull/IsEmpty/FreeAll) and on the registry (Push/Pop/Set/SetTop/CopyRange/FillNil/Insert with growth at exact growBy/maxSize boundaries) against slice models; " +
 			"non-trivial = a program compared under >=3 configurations, a limit case whose window contains both outcomes, or a component history with >=20 operations; distinct by content hash",
